@@ -254,3 +254,15 @@ Proof.
                                  (of_val_good _ _ _)) as [A [B _]].
   split; [exact B|]. split; [exact A|]. vm_compute. repeat split; reflexivity.
 Qed.
+
+(* member names holding a zero byte: the model compares names over their whole length (memcmp); the unmodified library compares with
+   strncmp in both loops of _jbl_merge_patch_node - the same on every name without a zero byte, different with one: {"a\u0000b":1}
+   merged with {"a\u0000c":2} gives {"a\u0000b":2} in the library (replayed; fixes/jpatch-merge-nul.diff, fixes/jpatch-clone-nul.diff) *)
+Theorem C16_name_compare_nul_free : forall pc c, Forall (fun x => x <> 0) (n_key c) -> mkey_match_c pc c = mkey_match pc c.
+Proof. exact mkey_match_c_nul_free. Qed.
+Print Assumptions C16_name_compare_nul_free.
+
+Theorem C16_name_compare_nul_refuted : exists c pc, good c /\ good pc /\ key_ok c /\ key_ok pc /\ n_key c <> n_key pc /\
+  mkey_match_c pc c = true /\ mkey_match pc c = false.
+Proof. exact merge_name_nul_refuted. Qed.
+Print Assumptions C16_name_compare_nul_refuted.
